@@ -585,7 +585,7 @@ blocks:
 
 // genesis draws the scenario genesis.
 func (g *G) genesis() *script.Genesis {
-	const base = "1000000000000000000nund,1000000000000000000000000000000atoken,1000000000000btoken,123456789ibc/C0FFEE" // the last one: a voucher-style denomination with upper-case characters
+	const base = "1000000000000000000nund,1000000000000000000000000000000atoken,1000000000000btoken,123456789ibc/C0FFEE,1000000000000xtoken" // ibc/…: a voucher-style denomination with upper-case characters
 	gs := &script.Genesis{Time: 1_700_000_000}
 	gs.MarkAll()
 	g.n = 6 + g.rng.Intn(5)
@@ -627,7 +627,8 @@ func (g *G) genesis() *script.Genesis {
 		return f
 	}
 	gs.Wrk, gs.Bcn = fees(), fees()
-	gs.StrFee = g.pick("0", "1", "10000000000000000", "500000000000000000", "1000000000000000000")
+	gs.StrFee = g.pick("0", "1", "10000000000000000", "500000000000000000", "1000000000000000000",
+		"25000000000000000", "5000000000000000", "999000000000000000", "123456789012345678") // sub-percent rates too
 	gs.Addrs = real.AddrTable(g.n)
 	return gs
 }
